@@ -10,7 +10,7 @@ class Check(CheckBase):
     property_id = 'C02'
     level = 'exploration'
     rule = ('histories of 6-40 operations {snapshot, repeat snapshot, delete subset of own, clean, concurrent group of '
-            'snapshots+restore} by 1-5 users whose keys are owner/shared/shared-of-shared/clone/independent (or one '
+            'snapshots+restore (in one process, and as separate processes over one Local directory)} by 1-5 users whose keys are owner/shared/shared-of-shared/clone/independent (or one '
             'unencrypted family) over one instrumented store, file sets drawn from a pool with heavy overlap; oracles: '
             '(online, at the instant of each backend mutation) no delete of a chunk referenced by a present snapshot '
             'object, no overwrite of a chunk with different plaintext; (after every operation) independent reader '
@@ -39,6 +39,12 @@ class Check(CheckBase):
                 'concurrent': r.choice([1, 2, 3, 5]),
                 'reuse_repos': i % 2 == 1 or i % 8 == 0,
             })
+        # non-destructive commands overlapping in time from SEVERAL PROCESSES over one local repository directory
+        for i in range(4 if self.tier == 'quick' else 60):
+            r = random.Random(f'{self.property_id}/{self.seed}/xp/{i}')
+            cases.append({'kind': 'xproc-group', 'seed': r.randrange(1 << 30),
+                          'settings': gen.gen_settings(r, encrypted=i % 2 == 0, chunker=r.choice([(8, 64), (64, 1024)])),
+                          'nproc': r.choice([2, 3, 4]), 'timeout': 400})
         return cases
 
     def worker_setup(self):
@@ -59,9 +65,101 @@ class Check(CheckBase):
             unmet.append('too few delete/clean runs with a garbled snapshot read')
         if c.get('histories_long_lived_repo', 0) < (10 if q else 300):
             unmet.append('too few histories with long-lived Repository objects')
+        if c.get('xproc_groups', 0) < (6 if q else 100):
+            unmet.append('too few groups of overlapping commands from several processes')
         return unmet
 
+    def _xproc_group(self, case):
+        """Rounds of concurrent `snapshot` processes (plus a `restore` and a `list` process) on one Local directory,
+        then an audit by the independent reader and a real restore of every snapshot."""
+        import json
+        import os
+        import shutil
+        import subprocess
+        import tempfile
+        from .. import paths, refimpl, rep
+        r = random.Random(case['seed'])
+        scratch = tempfile.mkdtemp(prefix='vf-c02x-', dir=paths.scratch_root())
+        counters, violations = {'xproc_groups': 0}, []
+        try:
+            repo, keyf = os.path.join(scratch, 'repo'), os.path.join(scratch, 'key')
+            mx = case['settings']['chunking']['max_length']
+            shared = r.randbytes(9 * mx + 3)
+
+            def spec(i, **kw):
+                src = os.path.join(scratch, f'src{i}')
+                return dict({'repo': repo, 'key': keyf, 'src': src, 'settings': case['settings'], 'concurrent': r.choice([1, 3]),
+                             'target': os.path.join(scratch, f'target{i}')}, **kw)
+
+            def launch(action, sp):
+                return subprocess.Popen([paths.PYTHON, '-m', 'vflib.xproc', action, json.dumps(sp)], stdout=subprocess.PIPE,
+                                        stderr=subprocess.PIPE, text=True, cwd=str(paths.VERIF))
+            truth = {}
+            p0 = launch('init', spec(0))
+            p0.communicate(timeout=120)
+            serial = 0
+            for rnd in range(3):
+                procs = []
+                for k in range(case['nproc']):
+                    serial += 1
+                    sp = spec(serial)
+                    os.makedirs(sp['src'])
+                    files = {'shared': shared, f'own{serial}': r.randbytes(r.randint(1, 6 * mx)), 'again': r.randbytes(3) * 50}
+                    for nm, data in files.items():
+                        with open(os.path.join(sp['src'], nm), 'wb') as f:
+                            f.write(data)
+                    procs.append(('snapshot', sp, launch('snapshot', sp), files))
+                if truth:
+                    procs.append(('restore', None, launch('restore', spec(900 + rnd)), None))
+                    procs.append(('list', None, launch('list', spec(950 + rnd)), None))
+                for action, sp, p, files in procs:
+                    out, err = p.communicate(timeout=200)
+                    try:
+                        res = json.loads(out.strip().splitlines()[-1])
+                    except Exception:
+                        res = {'ok': False, 'error': err[-300:]}
+                    if not res.get('ok'):
+                        violations.append({'what': f'{action} failed while overlapping with other non-destructive commands of other '
+                                                   f'processes: {res.get("error")}', 'mechanism': None,
+                                           'witness': {'round': rnd, 'trace': res.get('trace')}})
+                    elif action == 'snapshot':
+                        truth[res['name']] = {os.path.realpath(os.path.join(sp['src'], nm)): d for nm, d in files.items()}
+                counters['xproc_groups'] += 1
+            key = open(keyf, 'rb').read() if os.path.exists(keyf) else None
+            objects = {os.path.relpath(os.path.join(dp, f), repo): open(os.path.join(dp, f), 'rb').read()
+                       for dp, _, fs in os.walk(repo) for f in fs if not f.endswith('.tmp')}
+            ref = refimpl.Ref(objects['config'], key, rep.PASSWORD)
+            refd, snaps = refimpl.referenced_locations(ref, objects)
+            have = {n for n in objects if n.startswith('data/')}
+            if refd - have:
+                violations.append({'what': 'chunks referenced by a snapshot are missing after concurrent snapshots from several processes',
+                                   'mechanism': None, 'witness': {'missing': sorted(refd - have)[:3]}})
+            for loc, dec in snaps.items():
+                name = loc.rpartition('-')[2]
+                want = truth.get(name)
+                if want is None:
+                    continue
+                for f in dec['data']['files']:
+                    got = ref.restore_file(f, dec['chunks'], objects.__getitem__)
+                    counters['files_ref_restored'] = counters.get('files_ref_restored', 0) + 1
+                    if got != want.get(f['path']):
+                        violations.append({'what': 'a snapshot taken concurrently with others does not restore to its source',
+                                           'mechanism': None, 'witness': {'snapshot': name[:12], 'path': f['path']}})
+                        break
+            if len(snaps) != len(truth):
+                violations.append({'what': f'{len(truth)} snapshots were reported taken, {len(snaps)} are listed', 'mechanism': None, 'witness': {}})
+            counters['snapshots'] = len(truth)
+        except subprocess.TimeoutExpired:
+            return {'verdict': 'inconclusive', 'note': 'child watchdog', 'classes': [], 'counters': counters}
+        finally:
+            shutil.rmtree(scratch, ignore_errors=True)
+        return {'verdict': 'violated' if violations else 'held',
+                'classes': [f"xproc-group|{'enc' if case['settings'].get('encryption') else 'plain'}|p{case['nproc']}"],
+                'counters': counters, 'violations': violations[:3]}
+
     def run_case(self, case):
+        if case.get('kind') == 'xproc-group':
+            return self._xproc_group(case)
         from .. import hist
         r = random.Random(case['seed'])
         enc = case['settings'].get('encryption') is not None
